@@ -1,7 +1,7 @@
 import RactorModel.Lemmas.TreeRace
 
 /-! The macro layer (`mstep`, what the E-LTS harness executes at quiescent points): every macro op is a
-sequence of tree operations, `exitM` really empties the kill set, and therefore the history clauses
+sequence of tree operations, `exitCore` really empties the kill set, and therefore the history clauses
 `subtreeOk` / `gainOk` that the driver evaluates on the implementation hold of every macro run. -/
 
 namespace Tree
@@ -140,7 +140,7 @@ theorem exit_closed_killed (fixed : Bool) {s : State} (h : Inv s) {x : Nat} (hk 
 
 /-- one iteration of `settle` -/
 def settle1 (fixed : Bool) (m : MState) (x : Nat) : MState :=
-  { t := exit fixed m.t x, act := upd m.act x { m.act x with gone := true, busy := false } }
+  { m with t := exit fixed m.t x, act := upd m.act x { m.act x with gone := true, busy := false } }
 
 theorem settle1_spec (fixed : Bool) {m : MState} (h : SInv m) {x : Nat} (hx : Pending m x) :
     SInv (settle1 fixed m x) ∧
@@ -317,7 +317,7 @@ end Tree
 
 namespace Tree
 
-/-! ### the macro invariant and `exitM` -/
+/-! ### the macro invariant and `exitCore` -/
 
 /-- what holds at the quiescent points of a macro run -/
 structure MI (m : MState) : Prop where
@@ -325,6 +325,8 @@ structure MI (m : MState) : Prop where
   gone_stopped : ∀ x, (m.act x).gone = true ↔ m.t.status x = .stopped
   killed_gone : ∀ x, m.t.killed x = true → (m.act x).gone = true
   ps : ∀ x, m.t.status x = .stopping → (m.act x).inPs = true
+  /-- an actor parked in `post_stop` (or beyond) has published at least `Stopping` -/
+  psr : ∀ x, (m.act x).inPs = true → Status.stopping.toNat ≤ (m.t.status x).toNat
   fresh : ∀ x, m.t.n ≤ x → m.t.status x = .unstarted
 
 theorem MI.init : MI {} :=
@@ -332,6 +334,7 @@ theorem MI.init : MI {} :=
     gone_stopped := by intro x; simp
     killed_gone := by intro x h; cases h
     ps := by intro x h; cases h
+    psr := by intro x h; cases h
     fresh := fun _ _ => rfl }
 
 /-- a proper descendant is linked, hence not stopped -/
@@ -356,19 +359,19 @@ theorem exits_n (l : List Nat) : ∀ (s : State), (steps true s (l.map Op.exit))
   | nil => intro s; rfl
   | cons y ys ih => intro s; simp only [List.map_cons, steps, List.foldl_cons]; exact (ih _).trans (exit_n true s y)
 
-/-- `exitM a` at a quiescent point (kill condition `< Stopping`): `a` and exactly the actors linked beneath
+/-- `exitCore a` at a quiescent point (kill condition `< Stopping`): `a` and exactly the actors linked beneath
 it end up Stopped — except those that had already ended their message loop and sit in `post_stop`
 (`Stopping`): they are detached, not killed, and stay where they are; the result is again a quiescent state -/
-theorem exitM_spec {m : MState} (h : MI m) {a : Nat} (han : a < m.t.n) (hag : (m.act a).gone = false) :
-    MI (exitM true m a) ∧
-    (∀ z, Desc m.t a z → (exitM true m a).t.status z =
+theorem exitCore_spec {m : MState} (h : MI m) {a : Nat} (han : a < m.t.n) (hag : (m.act a).gone = false) :
+    MI (exitCore true m a) ∧
+    (∀ z, Desc m.t a z → (exitCore true m a).t.status z =
         if z ≠ a ∧ m.t.status z = .stopping then .stopping else .stopped) ∧
-    (∀ z, ¬ Desc m.t a z → (exitM true m a).t.status z = m.t.status z) ∧
-    (exitM true m a).t.n = m.t.n ∧
-    (∃ l : List Nat, (exitM true m a).t = steps true m.t ((a :: l).map Op.exit)) := by
+    (∀ z, ¬ Desc m.t a z → (exitCore true m a).t.status z = m.t.status z) ∧
+    (exitCore true m a).t.n = m.t.n ∧
+    (∃ l : List Nat, (exitCore true m a).t = steps true m.t ((a :: l).map Op.exit)) := by
   -- the state in which `settle` starts
-  let m0 : MState := { t := exit true m.t a, act := upd m.act a { m.act a with gone := true, busy := false } }
-  have hm0 : exitM true m a = settle true m.t.n m0 := rfl
+  let m0 : MState := { m with t := exit true m.t a, act := upd m.act a { m.act a with gone := true, busy := false } }
+  have hm0 : exitCore true m a = settle true m.t.n m0 := rfl
   have hgone0 : ∀ z, (m0.act z).gone = if z = a then true else (m.act z).gone := by
     intro z; simp only [m0, upd_apply]; split <;> rfl
   have hinps0 : ∀ z, (m0.act z).inPs = (m.act z).inPs := by
@@ -439,6 +442,16 @@ theorem exitM_spec {m : MState} (h : MI m) {a : Nat} (han : a < m.t.n) (hag : (m
         | true => rfl
         | false => exact absurd ⟨hz, hg⟩ (B z)
       ps := A.ps
+      psr := by
+        intro z hz
+        rw [G z, hinps0 z] at hz
+        have := h.psr z hz
+        rw [hstatus z]
+        split
+        · simp [Status.toNat]
+        · split
+          · simp [Status.toNat]
+          · exact this
       fresh := by
         intro z hz
         rw [hn] at hz
@@ -500,12 +513,12 @@ theorem steps_append (fixed : Bool) (s : State) (l1 l2 : List Op) :
 theorem child_congr {s s' : State} (h : s'.kids = s.kids) {p c : Nat} : child s' p c ↔ child s p c := by
   unfold child; rw [h]
 
-/-- an `exitM` after some preparatory tree ops that erase no edge and stop nobody -/
-theorem StepRel.of_exitM {prev : State} {m' : MState} (h : MI m') {a : Nat} (han : a < m'.t.n)
+/-- an `exitCore` after some preparatory tree ops that erase no edge and stop nobody -/
+theorem StepRel.of_exitCore {prev : State} {m' : MState} (h : MI m') {a : Nat} (han : a < m'.t.n)
     (hag : (m'.act a).gone = false) (ops0 : List Op) (he : m'.t = Tree.steps true prev ops0)
     (hk : ∀ z x, child prev z x → child m'.t z x) (hst : ∀ z, m'.t.status z = .stopped → prev.status z = .stopped) :
-    StepRel prev (exitM true m' a).t := by
-  obtain ⟨_, hD, hN, _, l, hl⟩ := exitM_spec h han hag
+    StepRel prev (exitCore true m' a).t := by
+  obtain ⟨_, hD, hN, _, l, hl⟩ := exitCore_spec h han hag
   refine ⟨⟨ops0 ++ (a :: l).map Op.exit, by rw [steps_append, ← he]; exact hl⟩, ?_⟩
   intro z h1 h2 x hx
   have hdz : Desc m'.t a z := by
@@ -563,12 +576,13 @@ theorem StepRel.checks {prev cur : State} (hp : Inv prev) (h : StepRel prev cur)
       rw [hk, hs]; simp
 
 theorem MI.act_congr {m : MState} (h : MI m) (act' : Nat → Act)
-    (hg : ∀ x, (act' x).gone = (m.act x).gone) (hp : ∀ x, (m.act x).inPs = true → (act' x).inPs = true) :
+    (hg : ∀ x, (act' x).gone = (m.act x).gone) (hp : ∀ x, (act' x).inPs = (m.act x).inPs) :
     MI { m with act := act' } :=
   { inv := h.inv
     gone_stopped := fun x => by rw [hg x]; exact h.gone_stopped x
     killed_gone := fun x hx => by rw [hg x]; exact h.killed_gone x hx
-    ps := fun x hx => hp x (h.ps x hx)
+    ps := fun x hx => by rw [hp x]; exact h.ps x hx
+    psr := fun x hx => by rw [hp x] at hx; exact h.psr x hx
     fresh := h.fresh }
 
 /-- an update of one actor's bookkeeping that touches neither `gone` nor `inPs` -/
@@ -578,9 +592,9 @@ theorem MI.upd_act {m : MState} (h : MI m) (a : Nat) (A : Act) (hg : A.gone = (m
   · intro x; simp only [upd_apply]; split
     · next e => subst e; exact hg
     · rfl
-  · intro x hx; simp only [upd_apply]; split
-    · next e => subst e; rw [hp]; exact hx
-    · exact hx
+  · intro x; simp only [upd_apply]; split
+    · next e => subst e; exact hp
+    · rfl
 
 theorem MI.not_gone_fresh {m : MState} (h : MI m) {x : Nat} (hx : m.t.n ≤ x) : (m.act x).gone = false := by
   cases hg : (m.act x).gone with
@@ -603,6 +617,15 @@ theorem MI.spawn {m : MState} (h : MI m) : MI { m with t := spawn m.t } :=
       intro x; simp only [Tree.spawn, upd_apply]; split
       · intro e; cases e
       · exact h.ps x
+    psr := by
+      intro x hx
+      have := h.psr x hx
+      simp only [Tree.spawn, upd_apply]; split
+      · next e =>
+        subst e
+        rw [h.fresh _ (Nat.le_refl _)] at this
+        simp [Status.toNat] at this
+      · exact this
     fresh := by
       intro x hx
       simp only [Tree.spawn] at hx ⊢
@@ -632,6 +655,12 @@ theorem MI.setStatus {m : MState} (h : MI m) {a : Nat} (st : Status) (han : a < 
       intro x; rw [setStatus_status]; split
       · intro e; exact absurd e hne.2
       · exact h.ps x
+    psr := by
+      intro x hx
+      have := h.psr x hx
+      rw [setStatus_status]; split
+      · next e => subst e; exact Nat.le_trans this (max_ge_left _ _)
+      · exact this
     fresh := by
       intro x hx
       rw [setStatus_status]
@@ -646,6 +675,7 @@ theorem MI.link {m : MState} (h : MI m) (c p : Nat) : MI { m with t := (link m.t
     gone_stopped := by intro x; simp only [hst]; exact h.gone_stopped x
     killed_gone := by intro x; simp only [hkl]; exact h.killed_gone x
     ps := by intro x; simp only [hst]; exact h.ps x
+    psr := by intro x; simp only [hst]; exact h.psr x
     fresh := by intro x hx; simp only [hst, hn] at hx ⊢; exact h.fresh x hx }
 
 theorem MI.unlink {m : MState} (h : MI m) (c p : Nat) : MI { m with t := unlink m.t c p } := by
@@ -655,6 +685,7 @@ theorem MI.unlink {m : MState} (h : MI m) (c p : Nat) : MI { m with t := unlink 
     gone_stopped := by intro x; simp only [hst]; exact h.gone_stopped x
     killed_gone := by intro x; simp only [hkl]; exact h.killed_gone x
     ps := by intro x; simp only [hst]; exact h.ps x
+    psr := by intro x; simp only [hst]; exact h.psr x
     fresh := by intro x hx; simp only [hst, hn] at hx ⊢; exact h.fresh x hx }
 
 theorem alive_iff {m : MState} {a : Nat} : m.alive a = true ↔ a < m.t.n ∧ (m.act a).gone = false := by
@@ -670,25 +701,45 @@ theorem MI.live_status {m : MState} (h : MI m) {a : Nat} (hg : (m.act a).gone = 
 theorem MI.loop_status {m : MState} (h : MI m) {a : Nat} (hp : (m.act a).inPs = false) : m.t.status a ≠ .stopping :=
   fun e => by have := h.ps a e; rw [hp] at this; cases this
 
-/-- `exitM` after preparatory ops -/
-theorem exitM_rel' {prev : State} {m' : MState} (h : MI m') {a : Nat} (hal : m'.alive a = true)
+/-- `exitCore` after preparatory ops -/
+theorem exitCore_rel' {prev : State} {m' : MState} (h : MI m') {a : Nat} (hal : m'.alive a = true)
     (ops0 : List Op) (he : m'.t = Tree.steps true prev ops0)
     (hk : ∀ z x, child prev z x → child m'.t z x) (hst : ∀ z, m'.t.status z = .stopped → prev.status z = .stopped) :
-    MI (exitM true m' a) ∧ StepRel prev (exitM true m' a).t := by
+    MI (exitCore true m' a) ∧ StepRel prev (exitCore true m' a).t := by
   obtain ⟨han, hag⟩ := alive_iff.mp hal
-  exact ⟨(exitM_spec h han hag).1, StepRel.of_exitM h han hag ops0 he hk hst⟩
+  exact ⟨(exitCore_spec h han hag).1, StepRel.of_exitCore h han hag ops0 he hk hst⟩
 
-/-- `exitM` with nothing before it -/
-theorem exitM_rel {m : MState} (h : MI m) {a : Nat} (hal : m.alive a = true) :
-    MI (exitM true m a) ∧ StepRel m.t (exitM true m a).t :=
-  exitM_rel' h hal [] rfl (fun _ _ hx => hx) (fun _ hz => hz)
+/-- `exitCore` with nothing before it -/
+theorem exitCore_rel {m : MState} (h : MI m) {a : Nat} (hal : m.alive a = true) :
+    MI (exitCore true m a) ∧ StepRel m.t (exitCore true m a).t :=
+  exitCore_rel' h hal [] rfl (fun _ _ hx => hx) (fun _ hz => hz)
+
+/-- the invariant only reads the tree and the bookkeeping -/
+theorem MI.of_eq {m1 m2 : MState} (ht : m2.t = m1.t) (ha : m2.act = m1.act) (h : MI m1) : MI m2 :=
+  { inv := ht ▸ h.inv
+    gone_stopped := by rw [ht, ha]; exact h.gone_stopped
+    killed_gone := by rw [ht, ha]; exact h.killed_gone
+    ps := by rw [ht, ha]; exact h.ps
+    psr := by rw [ht, ha]; exact h.psr
+    fresh := by rw [ht]; exact h.fresh }
+
+theorem exitM_rel' {prev : State} {m' : MState} (h : MI m') {a : Nat} (hal : m'.alive a = true) (w : Why)
+    (ops0 : List Op) (he : m'.t = Tree.steps true prev ops0)
+    (hk : ∀ z x, child prev z x → child m'.t z x) (hst : ∀ z, m'.t.status z = .stopped → prev.status z = .stopped) :
+    MI (exitM true m' a w) ∧ StepRel prev (exitM true m' a w).t := by
+  obtain ⟨h1, h2⟩ := exitCore_rel' h hal ops0 he hk hst
+  exact ⟨MI.of_eq (m1 := exitCore true m' a) rfl rfl h1, h2⟩
+
+theorem exitM_rel {m : MState} (h : MI m) {a : Nat} (hal : m.alive a = true) (w : Why) :
+    MI (exitM true m a w) ∧ StepRel m.t (exitM true m a w).t :=
+  exitM_rel' h hal w [] rfl (fun _ _ hx => hx) (fun _ hz => hz)
 
 /-- a graceful exit after preparatory ops: either the whole exit, or (gate armed) the actor parks in
 `post_stop`: `Stopping` is published, nothing else happens yet -/
-theorem gexit_rel' {prev : State} {m' : MState} (h : MI m') {a : Nat} (hal : m'.alive a = true)
+theorem gexit_rel' {prev : State} {m' : MState} (h : MI m') {a : Nat} (hal : m'.alive a = true) (w : Why)
     (ops0 : List Op) (he : m'.t = Tree.steps true prev ops0)
     (hk : ∀ z x, child prev z x → child m'.t z x) (hst : ∀ z, m'.t.status z = .stopped → prev.status z = .stopped) :
-    MI (gexit true m' a) ∧ StepRel prev (gexit true m' a).t := by
+    MI (gexit true m' a w) ∧ StepRel prev (gexit true m' a w).t := by
   unfold gexit
   split
   · obtain ⟨han, hag⟩ := alive_iff.mp hal
@@ -696,7 +747,7 @@ theorem gexit_rel' {prev : State} {m' : MState} (h : MI m') {a : Nat} (hal : m'.
     have hmax : (m'.t.status a).max .stopping = .stopping := max_stopping_of hlive
     have hstat : ∀ z, (setStatus m'.t a .stopping).status z = if z = a then .stopping else m'.t.status z := by
       intro z; rw [setStatus_status, hmax]
-    have hgone : ∀ z, (upd m'.act a { m'.act a with inPs := true, busy := false } z).gone = (m'.act z).gone := by
+    have hgone : ∀ z, (upd m'.act a { m'.act a with inPs := true, busy := false, why := w } z).gone = (m'.act z).gone := by
       intro z; simp only [upd_apply]; split
       · next e => subst e; rfl
       · rfl
@@ -712,6 +763,10 @@ theorem gexit_rel' {prev : State} {m' : MState} (h : MI m') {a : Nat} (hal : m'.
           intro z; rw [hstat z]; simp only [upd_apply]; split
           · intro _; rfl
           · exact h.ps z
+        psr := by
+          intro z; rw [hstat z]; simp only [upd_apply]; split
+          · intro _; simp [Status.toNat]
+          · exact h.psr z
         fresh := by
           intro z hz
           rw [hstat z]
@@ -726,11 +781,11 @@ theorem gexit_rel' {prev : State} {m' : MState} (h : MI m') {a : Nat} (hal : m'.
       split at h1
       · cases h1
       · exact h2 (hst z h1)
-  · exact exitM_rel' h hal ops0 he hk hst
+  · exact exitM_rel' h hal w ops0 he hk hst
 
-theorem gexit_rel {m : MState} (h : MI m) {a : Nat} (hal : m.alive a = true) :
-    MI (gexit true m a) ∧ StepRel m.t (gexit true m a).t :=
-  gexit_rel' h hal [] rfl (fun _ _ hx => hx) (fun _ hz => hz)
+theorem gexit_rel {m : MState} (h : MI m) {a : Nat} (hal : m.alive a = true) (w : Why) :
+    MI (gexit true m a w) ∧ StepRel m.t (gexit true m a w).t :=
+  gexit_rel' h hal w [] rfl (fun _ _ hx => hx) (fun _ hz => hz)
 
 /-- every macro op leads from a quiescent state to a quiescent state, and the two snapshots are related -/
 theorem mstep_rel {m : MState} (h : MI m) (op : MOp) :
@@ -783,7 +838,7 @@ theorem mstep_rel {m : MState} (h : MI m) (op : MOp) :
       rw [hsame]
       have hag : (m.act m.t.n).gone = false := h.not_gone_fresh (Nat.le_refl _)
       have hal : ({ m with t := Tree.spawn m.t } : MState).alive m.t.n = true := alive_iff.mpr ⟨hn, hag⟩
-      apply exitM_rel' h1 hal [.spawn] rfl (fun _ _ hx => hx)
+      apply exitCore_rel' h1 hal [.spawn] rfl (fun _ _ hx => hx)
       intro z hz
       simp only [Tree.spawn, upd_apply] at hz
       split at hz
@@ -821,7 +876,7 @@ theorem mstep_rel {m : MState} (h : MI m) (op : MOp) :
       have han' : m.t.n < (link (Tree.spawn m.t) m.t.n p).1.n := by rw [hnn]; exact hn
       have hal : ({ m with t := (link (Tree.spawn m.t) m.t.n p).1 } : MState).alive m.t.n = true :=
         alive_iff.mpr ⟨han', hag⟩
-      apply exitM_rel' h2 hal [.spawn, .link m.t.n p] rfl
+      apply exitCore_rel' h2 hal [.spawn, .link m.t.n p] rfl
       · -- the link only adds an edge: the new cell had no supervisor, so nothing is erased
         intro z x hx
         have hsup : (Tree.spawn m.t).sup m.t.n = none := by
@@ -867,14 +922,14 @@ theorem mstep_rel {m : MState} (h : MI m) (op : MOp) :
       · have hm' := h.upd_act a { m.act a with handled := (m.act a).handled + 1 } rfl rfl
         have hal' : ({ m with act := upd m.act a { m.act a with handled := (m.act a).handled + 1 } } : MState).alive a = true := by
           simp [MState.alive, han, hag]
-        exact gexit_rel hm' hal'
+        exact gexit_rel hm' hal' _
       · split
         · exact ⟨h.upd_act a _ rfl rfl, StepRel.refl _⟩
         · split
           · have hm' := h.upd_act a { m.act a with handled := (m.act a).handled + 1, busy := false } rfl rfl
             have hal' : ({ m with act := upd m.act a { m.act a with handled := (m.act a).handled + 1, busy := false } } : MState).alive a = true := by
               simp [MState.alive, han, hag]
-            exact gexit_rel hm' hal'
+            exact gexit_rel hm' hal' _
           · exact ⟨h.upd_act a _ rfl rfl, StepRel.refl _⟩
     · simp only [hc, Bool.false_eq_true, ↓reduceIte]
       exact ⟨h, StepRel.refl _⟩
@@ -904,23 +959,35 @@ theorem mstep_rel {m : MState} (h : MI m) (op : MOp) :
         exact StepRel.of_steps _ hstop
       · have hal' : ({ m with t := setStatus m.t a .draining } : MState).alive a = true := by
           simp [MState.alive, han, hag, Tree.setStatus]
-        exact gexit_rel' hm' hal' [.setStatus a .draining] rfl (fun _ _ hx => hx) hstop
+        exact gexit_rel' hm' hal' _ [.setStatus a .draining] rfl (fun _ _ hx => hx) hstop
     · simp only [hlo, Bool.false_eq_true, ↓reduceIte]
       exact ⟨h, StepRel.refl _⟩
   | stop a =>
-    simp only [mstep]
-    by_cases hlo : m.looping a = true
-    · simp only [hlo, ↓reduceIte]
-      obtain ⟨han, hag, _⟩ := looping_iff.mp hlo
-      split
-      · exact ⟨h.upd_act a _ rfl rfl, StepRel.refl _⟩
-      · exact gexit_rel h (alive_iff.mpr ⟨han, hag⟩)
-    · simp only [hlo, Bool.false_eq_true, ↓reduceIte]
-      exact ⟨h, StepRel.refl _⟩
+    -- using up the stop port changes neither `gone` nor `inPs`
+    have h0 : MI { m with act := upd m.act a { m.act a with stopSent := true } } := h.upd_act a _ rfl rfl
+    have key : ∀ m0 : MState, MI m0 →
+        MI (if m0.looping a then
+              (if (m0.act a).busy then (({ m0 with act := upd m0.act a { m0.act a with stopReq := true } } : MState), Res.unit)
+               else (gexit true m0 a .stopped, Res.unit))
+            else (m0, Res.unit)).1 ∧
+        StepRel m0.t (if m0.looping a then
+              (if (m0.act a).busy then (({ m0 with act := upd m0.act a { m0.act a with stopReq := true } } : MState), Res.unit)
+               else (gexit true m0 a .stopped, Res.unit))
+            else (m0, Res.unit)).1.t := by
+      intro m0 h
+      by_cases hlo : m0.looping a = true
+      · simp only [hlo, ↓reduceIte]
+        obtain ⟨han, hag, _⟩ := looping_iff.mp hlo
+        split
+        · exact ⟨h.upd_act a _ rfl rfl, StepRel.refl _⟩
+        · exact gexit_rel h (alive_iff.mpr ⟨han, hag⟩) _
+      · simp only [hlo, Bool.false_eq_true, ↓reduceIte]
+        exact ⟨h, StepRel.refl _⟩
+    exact key _ h0
   | kill a =>
     simp only [mstep]
     by_cases hal : m.alive a = true
-    · simp only [hal, ↓reduceIte]; exact exitM_rel h hal
+    · simp only [hal, ↓reduceIte]; exact exitM_rel h hal _
     · simp only [hal, Bool.false_eq_true, ↓reduceIte]; exact ⟨h, StepRel.refl _⟩
   | fail a =>
     simp only [mstep]
@@ -928,12 +995,12 @@ theorem mstep_rel {m : MState} (h : MI m) (op : MOp) :
     · simp only [hc, ↓reduceIte]
       have hlo : m.looping a = true := by simp only [Bool.and_eq_true] at hc; exact hc.1
       obtain ⟨han, hag, _⟩ := looping_iff.mp hlo
-      exact exitM_rel h (alive_iff.mpr ⟨han, hag⟩)
+      exact exitM_rel h (alive_iff.mpr ⟨han, hag⟩) _
     · simp only [hc, Bool.false_eq_true, ↓reduceIte]; exact ⟨h, StepRel.refl _⟩
   | abort a =>
     simp only [mstep]
     by_cases hal : m.alive a = true
-    · simp only [hal, ↓reduceIte]; exact exitM_rel h hal
+    · simp only [hal, ↓reduceIte]; exact exitM_rel h hal _
     · simp only [hal, Bool.false_eq_true, ↓reduceIte]; exact ⟨h, StepRel.refl _⟩
   | hold a =>
     simp only [mstep]
@@ -945,7 +1012,7 @@ theorem mstep_rel {m : MState} (h : MI m) (op : MOp) :
     by_cases hc : (m.alive a && (m.act a).inPs) = true
     · simp only [hc, ↓reduceIte]
       have hal : m.alive a = true := by simp only [Bool.and_eq_true] at hc; exact hc.1
-      exact exitM_rel h hal
+      exact exitM_rel h hal _
     · simp only [hc, Bool.false_eq_true, ↓reduceIte]; exact ⟨h, StepRel.refl _⟩
 
 theorem mrun_MI (ops : List MOp) : MI (mrun true {} ops) := by
